@@ -128,7 +128,8 @@ class C16(Engine):
         self.edge_ids = []
         for b in rng0.sample(srcs, min(4 if self.tier == "quick" else 40, len(srcs))):
             c = P.files[b]["content"]
-            for tag, c2 in (("+sp", c + " "), ("+tab", c + "\t"), ("-nl", c.rstrip("\n")), ("+nl", c + "\n"), ("sp+", " " + c)):
+            for tag, c2 in (("+sp", c + " "), ("+tab", c + "\t"), ("-nl", c.rstrip("\n")), ("+nl", c + "\n"), ("sp+", " " + c),
+                            ("bom+", "\ufeff" + c), ("nbsp+", "\u00a0" + c), ("+ff", c + "\x0c")):
                 fid = P.add("edge", P.files[b]["name"], c2, f"{P.meta[b]['origin']}{tag}")
                 self.edge_ids.append(fid)
         P.register()
@@ -144,8 +145,9 @@ class C16(Engine):
         rng.shuffle(emits)
         withdef = emits[: max(6, len(emits) // 2 if not q else 8)] + hasdef
         rng.shuffle(cands)
-        n = 48 if q else 1200
-        chosen = withdef[: n // 3] + [f for f in self.edge_ids if f in cands][: n // 4]
+        n = 56 if q else 1200
+        zoo = [f for f in cands if P.meta[f]["group"] == "special_zoo"]
+        chosen = withdef[: n // 3] + [f for f in self.edge_ids if f in cands][: n // 3] + zoo
         for cls, k in (("fatal", n // 8), ("notice", n // 12), ("clean", n // 6)):
             chosen += [f for f in cands if P.cls[f] == cls and f not in chosen][:k]
         for f in cands:
